@@ -1,4 +1,6 @@
 import BSModel.Proofs.Text
+import BSModel.Proofs.TextHeap
+import BSModel.Props.C01
 import BSModel.Gen.Text
 /-! # C13 — text extraction returns exactly the interesting strings, in document order
 
@@ -394,5 +396,147 @@ example : stringContainer [] containers (some (ofS "script")) (some .comment) = 
     parsed string into a `Sub`, which the exact-class test then hides from ordinary elements -/
 example : stringContainer [(.navigableString, .other 0)] containers none none = .other 0 ∧
     textOf isMain (.str (.other 0) (ofS "x")) = [] := by decide
+
+/-! ## 9. on the pointer heap: parsed and edited trees
+
+`allStringsHeap`/`getTextHeap`/`stringPropHeap` (Model/TextHeap.lean) run `_all_strings`, `get_text` and `.string`
+on the pointer heap of Model/Heap.lean: over `Tag.descendants` — the `next_element` chase bounded by
+`_last_descendant()` — exactly as the Python does. C01 proves that parsing and every finite history of editing calls
+keep the heap consistent (`Good`); on a consistent heap the chase is the pre-order of the children lists
+(Proofs/HeapIter.lean). Hence nothing about the linkage is assumed any more: sections 1–7 hold for the tree
+`toNode h L h.cap x` read off the children lists. -/
+section heap
+open BS.Heap
+
+/-- On every consistent heap, for every receiver, labelling and argument: the pointer-chasing `_all_strings` never
+    fails and yields what the tree-level code-mirror yields on the tree read off `contents`. -/
+theorem heap_allStrings_eq_tree {h : Heap} (hg : Good h) (mn : List StrClass) (L : Labels) (strp : Bool)
+    (types : TypesArg) (x : Nat) :
+    allStringsHeap mn h L strp types x = .ok (allStringsImpl mn strp types (toNode h L h.cap x)) := by
+  obtain ⟨w, hwf⟩ := hg
+  exact allStringsHeap_eq_tree hwf mn L strp types x
+
+/-- … hence it is the recursive evaluator over the children's trees (element receiver). -/
+theorem heap_allStrings_eq_spec {h : Heap} (hg : Good h) (mn : List StrClass) (L : Labels) (strp : Bool)
+    (types : TypesArg) (x : Nat) (hx : (h.kind x).isTag = true) :
+    allStringsHeap mn h L strp types x =
+      .ok (pieces strp (textOfL (resolveTag mn (L.interesting x) types).keeps ((h.kids x).map (toNode h L h.cap)))) := by
+  rw [heap_allStrings_eq_tree hg]
+  obtain ⟨w, hwf⟩ := hg
+  rw [toNode_unfold hwf L x hx, allStrings_eq_spec]
+
+/-- Document order on the heap itself: the pieces are the values of the string nodes of the selected classes among
+    `docOrder h x` (C01's pre-order of the subtree) after `x`, in that order. -/
+theorem heap_allStrings_document_order {h : Heap} (hg : Good h) (mn : List StrClass) (L : Labels)
+    (types : TypesArg) (x : Nat) (hx : (h.kind x).isTag = true) :
+    allStringsHeap mn h L false types x =
+      .ok ((((docOrder h x).tail).filter
+        (fun e => !(h.kind e).isTag && (resolveTag mn (L.interesting x) types).keeps (L.cls e))).map h.val) := by
+  obtain ⟨w, hwf⟩ := hg
+  unfold allStringsHeap
+  simp only [hx, if_true, descendants_eq hwf x, docOrder]
+  congr 1
+  generalize (pre h.kids h.cap x).tail = ds
+  induction ds with
+  | nil => rfl
+  | cons e es ih =>
+    simp only [List.filterMap_cons, List.filter_cons, ih]
+    by_cases he : (h.kind e).isTag = true
+    · simp [shallow, he, tagKeep]
+    · cases hk : (resolveTag mn (L.interesting x) types).keeps (L.cls e) <;> simp [shallow, he, tagKeep, hk]
+
+/-- `get_text` on the heap: never fails, and is the separator-joined pieces of the tree-level evaluator. -/
+theorem heap_getText {h : Heap} (hg : Good h) (mn : List StrClass) (L : Labels) (sep : PStr) (strp : Bool)
+    (types : TypesArg) (x : Nat) :
+    getTextHeap mn h L sep strp types x =
+      .ok (List.intercalate sep (allStringsImpl mn strp types (toNode h L h.cap x))) := by
+  unfold getTextHeap
+  rw [heap_allStrings_eq_tree hg]
+  show Except.ok (joinImpl sep _) = _
+  rw [joinImpl_eq_joinSpec, joinSpec_eq_intercalate]
+
+/-- **Parse any document, edit it by any finite history of editing calls (all fourteen kinds, any arguments within
+    C01's quantifier): text extraction on the resulting pointer structure is the recursive evaluator on its
+    children lists** — for every receiver, every class labelling, every `interesting_string_types`, every argument. -/
+theorem parsed_then_edited_text :
+    ∀ (acts : List BS.ParseLink.Act) (ops : List Op) (h' : Heap),
+      run (BS.ParseLink.prun BS.ParseLink.PSt.init acts).heap ops = .ok h' → (∀ op ∈ ops, op.kindsOK) →
+      ∀ (mn : List StrClass) (L : Labels) (sep : PStr) (strp : Bool) (types : TypesArg) (x : Nat),
+        allStringsHeap mn h' L strp types x = .ok (allStringsImpl mn strp types (toNode h' L h'.cap x)) ∧
+        getTextHeap mn h' L sep strp types x =
+          .ok (List.intercalate sep (allStringsImpl mn strp types (toNode h' L h'.cap x))) := by
+  intro acts ops h' hr hk mn L sep strp types x
+  have hg : Good h' := (BS.Props.C01.parsed_then_edited_consistent acts ops h' hr hk).1
+  exact ⟨heap_allStrings_eq_tree hg mn L strp types x, heap_getText hg mn L sep strp types x⟩
+
+/-- the same from freshly constructed objects (API-built trees) -/
+theorem built_then_edited_text :
+    ∀ (kinds : List Kind) (ops : List Op) (h' : Heap),
+      run (Heap.init kinds) ops = .ok h' → (∀ op ∈ ops, op.kindsOK) →
+      ∀ (mn : List StrClass) (L : Labels) (strp : Bool) (types : TypesArg) (x : Nat),
+        allStringsHeap mn h' L strp types x = .ok (allStringsImpl mn strp types (toNode h' L h'.cap x)) := by
+  intro kinds ops h' hr hk mn L strp types x
+  have hg : Good h' := (BS.Props.C01.history_consistent ops _ h' (BS.Props.C01.init_consistent kinds) hk hr).1
+  exact heap_allStrings_eq_tree hg mn L strp types x
+
+/-- The abstraction is the tree of the children lists: a tag's tree is the tag over its children's trees, a string's
+    tree is the string; the fuel `h.cap` is enough everywhere. -/
+theorem toNode_is_the_tree {h : Heap} (hg : Good h) (L : Labels) (x : Nat) :
+    ((h.kind x).isTag = true →
+      toNode h L h.cap x = .tag (L.name x) (L.interesting x) ((h.kids x).map (toNode h L h.cap))) ∧
+    ((h.kind x).isTag = false → toNode h L h.cap x = .str (L.cls x) (h.val x)) := by
+  obtain ⟨w, hwf⟩ := hg
+  exact ⟨toNode_unfold hwf L x, toNode_str L h.cap x⟩
+
+/-- `.string` on the heap (the loop over `contents`) returns the string *object* at the end of the chain of only
+    children, and `None` when there is none; the loop bound is never reached. -/
+theorem heap_string_sole_chain {h : Heap} (hg : Good h) (x s : Nat) :
+    stringPropHeap h h.cap x = some s ↔ HeapSoleChain h x s := by
+  obtain ⟨w, hwf⟩ := hg
+  constructor
+  · exact stringPropHeap_sound h h.cap x s
+  · intro hc
+    have := hwf.size_cap x
+    exact stringPropHeap_complete hwf hc h.cap (by omega)
+
+/-- … and it is the tree-level `.string` of the abstracted tree (class and value of that object). -/
+theorem heap_string_eq_tree (h : Heap) (L : Labels) (x : Nat) :
+    stringProp (toNode h L h.cap x) = (stringPropHeap h h.cap x).map (fun s => (L.cls s, h.val s)) :=
+  stringProp_toNode h L h.cap x
+
+/-- a labelling for the examples: node 4 is a Comment, node 5 a Script string, every other string plain; tag 3
+    counts Comments only, the other tags are ordinary -/
+def demoLabels : Labels :=
+  { cls := fun i => if i = 4 then .comment else if i = 5 then .script else .navigableString,
+    interesting := fun i => if i = 3 then .many [.comment] else .many main,
+    name := fun i => [i] }
+
+/-- non-vacuity: `<t1>2<t3><!--4--></t3></t1>5` built by the API under the BeautifulSoup object 0, then edited: `5`
+    moved into `t1`, a plain string `7` inserted at the front of `t1` (the library allocates node 6 for it), `2`
+    extracted and appended to `t3` — and the text extracted through the pointers of the result -/
+def demoHeap : Except Err Heap :=
+  run (Heap.init [.soup, .tag, .str, .tag, .pre, .str])
+    [.append 0 (.node 1), .append 1 (.node 2), .append 1 (.node 3), .append 3 (.node 4), .append 0 (.node 5),
+     .append 1 (.node 5), .insert 1 0 [.plain [7]], .extract 2, .append 3 (.node 2)]
+
+example : (demoHeap.toOption.map fun h => (h.kids 0, h.kids 1, h.kids 3)) = some ([1], [6, 3, 5], [4, 2]) := by
+  decide +kernel
+example : (demoHeap.toOption.bind fun h => (allStringsHeap main h demoLabels false .dflt 0).toOption) =
+    some [[7], [2]] := by decide +kernel
+example : (demoHeap.toOption.bind fun h => (allStringsHeap main h demoLabels false .dflt 3).toOption) = some [[4]] := by
+  decide +kernel
+example : (demoHeap.toOption.bind fun h => (allStringsHeap main h demoLabels false .none 0).toOption) =
+    some [[7], [4], [2], [5]] := by decide +kernel
+example : (demoHeap.toOption.bind fun h => (getTextHeap main h demoLabels (ofS "|") false .none 1).toOption) =
+    some [7, 124, 4, 124, 2, 124, 5] := by decide +kernel
+example : (demoHeap.toOption.map fun h => stringPropHeap h h.cap 0) = some none := by decide +kernel
+example : (run (Heap.init [.soup, .tag, .tag, .str]) [.append 0 (.node 1), .append 1 (.node 2), .append 2 (.node 3)]).toOption.map
+    (fun h => stringPropHeap h h.cap 0) = some (some 3) := by decide +kernel
+/-- a parsed start (`<a>x<b>y</b></a>z`) edited by a history: the hypothesis of `parsed_then_edited_text` is satisfiable -/
+example : (run (BS.ParseLink.prun BS.ParseLink.PSt.init [.newTag, .newStr, .newTag, .newStr, .pop, .pop, .newStr]).heap
+    [.append 1 (.node 5), .insert 1 0 [.plain [7]], .extract 2, .append 3 (.node 2)]).toOption.map
+    (fun h => (h.kids 1, h.kids 3)) = some ([6, 3, 5], [4, 2]) := by decide +kernel
+
+end heap
 
 end BS.Props.C13
